@@ -40,6 +40,24 @@ def writes_of(b, facts, eb):
     return out
 
 
+def rebuilt_parts(v):
+    """(ptr, len, cap, off) when v is the inline Vec put together again: `rebuild_vec(ptr, len, cap, off)` or, written out,
+    `Vec::from_raw_parts(ptr.sub(off), len + off, cap + off)`"""
+    if is_call(v, "rebuild_vec") and len(v[2]) == 4:
+        return tuple(v[2])
+    if is_call(v, "from_raw_parts") and "Vec" in v[1] and len(v[2]) == 3:
+        p, l, c = strip_ptr(v[2][0]), v[2][1], v[2][2]
+        if is_call(p, "sub") and len(p[2]) == 2:
+            o = p[2][1]
+            for (x, y) in ((l, c),):
+                if isinstance(x, tuple) and x[0] == "bin" and x[1] == "Add" and o in (x[2], x[3]) \
+                        and isinstance(y, tuple) and y[0] == "bin" and y[1] == "Add" and o in (y[2], y[3]):
+                    ln = x[3] if x[2] == o else x[2]
+                    cp = y[3] if y[2] == o else y[2]
+                    return (p[2][0], ln, cp, o)
+    return None
+
+
 def same_path(cfg, a, b):
     la, lb = (a["bb"], a["si"]), (b["bb"], b["si"])
     return cfg.loc_dominates(la, lb) or cfg.loc_dominates(lb, la)
@@ -325,8 +343,8 @@ def bytes_before_pointer(b, w, E, base, calls, cfg, ctx):
                     and cfg.loc_dominates((bi, 10 ** 6), wloc)]
         # (2a) V = rebuild_vec(self.ptr, self.len, self.cap, off) — the Vec owns the live bytes — then V.reserve
         rv = strip_ref(V)
-        if is_call(rv, "rebuild_vec") and reserves:
-            a = rv[2]
+        if rebuilt_parts(rv) and reserves:
+            a = rebuilt_parts(rv)
             if strip_ptr(a[0]) == old_ptr and a[1] == ln and a[3] == off:
                 return True, "new base is the buffer of rebuild_vec(self.ptr, len, cap, off) after reserve; offset re-applied with the same off"
         # (2b) V.set_len(off + len) dominates V.reserve (realloc preserves [0, len))
@@ -659,7 +677,7 @@ def promise_verdicts(facts, b, bid, min_writes=4):
             for (bi, p, nm, a) in calls:
                 if nm == "reserve" and "Vec" in p and strip_ref(a[0]) == V and cfg.loc_dominates((bi, 10 ** 6), wloc):
                     k = a[1]
-                    if is_call(V, "rebuild_vec") and V[2][1] == ln and V[2][3] == off and k == add:
+                    if rebuilt_parts(V) and rebuilt_parts(V)[1] == ln and rebuilt_parts(V)[3] == off and k == add:
                         ok, how = True, "rebuild_vec(.., len, .., off).reserve(additional): capacity >= len + off + additional"
                     elif isinstance(k, tuple) and k[0] == "bin" and k[1] == "Sub" and contains_new_plus(k[2], off) and is_call(k[3], "len") and strip_ref(k[3][2][0]) == V:
                         ok, how = True, "v.reserve(X - v.len()) with X >= len + additional + off: capacity >= X"
